@@ -68,10 +68,12 @@ DevXmlOver == "Dev_XmlArrayReadPastEnd"
 AllDevs == {DevReused, DevXmlStr, DevXmlCont, DevJsonNull, DevXmlOver}
 
 -----------------------------------------------------------------------------
-(* Results of a step.  dv = names of the deviations that shaped the result (on an error: of the failing step)   *)
-Ok(v, dv)        == [v |-> v, ok |-> TRUE, err |-> "", dv |-> dv]
-NotLoaded(c, dv) == [v |-> c, ok |-> FALSE, err |-> "", dv |-> dv]
-Err(code, dv)    == [v |-> <<"none">>, ok |-> FALSE, err |-> code, dv |-> dv]
+(* Results of a step.  dv = names of the deviations that shaped the result (on an error: of the failing step);  *)
+(* fv = every deviation whose guard was true anywhere during the step                                          *)
+Ok(v, dv)        == [v |-> v, ok |-> TRUE, err |-> "", dv |-> dv, fv |-> dv]
+NotLoaded(c, dv) == [v |-> c, ok |-> FALSE, err |-> "", dv |-> dv, fv |-> dv]
+Err(code, dv)    == [v |-> <<"none">>, ok |-> FALSE, err |-> code, dv |-> dv, fv |-> dv]
+Fv(r, fv)        == [r EXCEPT !.fv = fv \cup r.dv]
 
 Mismatch == "Mismatched types"
 OutOfRange == "Out of range"
@@ -196,9 +198,9 @@ LoadSlots(Te, c1, items, env, i, acc) ==
            r == IF DevReused \in env.devs THEN inplace ELSE clean
            fired == IF DevReused \in env.devs /\ differs THEN {DevReused} ELSE {}
        IN LoadSlots(Te, c1, items, env, i + 1,
-                    [vs |-> Append(acc.vs, r.v), err |-> r.err, dv |-> IF r.err # "" THEN r.dv ELSE acc.dv \cup r.dv \cup fired])
+                    [vs |-> Append(acc.vs, r.v), err |-> r.err, dv |-> IF r.err # "" THEN r.dv ELSE acc.dv \cup r.dv \cup fired, fv |-> acc.fv \cup r.fv \cup fired])
 
-SlotAcc == [vs |-> <<>>, err |-> "", dv |-> {}]
+SlotAcc == [vs |-> <<>>, err |-> "", dv |-> {}, fv |-> {}]
 
 \* Detail::SerializeContainer and its copies (vector<bool>, forward_list, valarray, adaptors)
 SeqLoad(kind, Te, cur, items, env) ==
@@ -214,21 +216,21 @@ SeqLoad(kind, Te, cur, items, env) ==
       c2 == [i \in 1..Max(Len(c1), n) |-> IF i <= n THEN ld.vs[i] ELSE c1[i]]
       \* step 4: cont.resize(loadedItems)
       c3 == Resize(c2, n, Te)
-  IN IF ld.err # "" THEN Err(ld.err, ld.dv) ELSE Ok(<<"seq", c3>>, ld.dv)
+  IN IF ld.err # "" THEN Fv(Err(ld.err, ld.dv), ld.fv) ELSE Fv(Ok(<<"seq", c3>>, ld.dv), ld.fv)
 
 \* Detail::SerializeFixedSizeArray (std::array, C array): load while both sides have items, then compare the sizes
 FixLoad(n, Te, cur, items, env) ==
   LET m == Min(n, Len(items))
       ld == LoadSlots(Te, cur[2], SubSeq(items, 1, m), Nested(env), 1, SlotAcc)
-  IN IF ld.err # "" THEN Err(ld.err, ld.dv)
-     ELSE IF n # Len(items) THEN Err(OutOfRange, {})
-     ELSE Ok(<<"seq", ld.vs>>, ld.dv)
+  IN IF ld.err # "" THEN Fv(Err(ld.err, ld.dv), ld.fv)
+     ELSE IF n # Len(items) THEN Fv(Err(OutOfRange, {}), ld.fv)
+     ELSE Fv(Ok(<<"seq", ld.vs>>, ld.dv), ld.fv)
 
 \* std::bitset<n>: n unconditional reads
 BitsetLoad(n, cur, items, env) ==
   IF Len(items) < n THEN (IF env.arch = "xml" /\ DevXmlOver \in env.devs THEN Err(Crash, {DevXmlOver}) ELSE Err(OutOfRange, {}))
   ELSE LET ld == LoadSlots(<<"bool">>, cur[2], SubSeq(items, 1, n), Nested(env), 1, SlotAcc)
-       IN IF ld.err # "" THEN Err(ld.err, ld.dv) ELSE Ok(<<"seq", ld.vs>>, ld.dv)
+       IN IF ld.err # "" THEN Fv(Err(ld.err, ld.dv), ld.fv) ELSE Fv(Ok(<<"seq", ld.vs>>, ld.dv), ld.fv)
 
 \* std::tuple: one read per member, each into the existing member
 TupleSlots(Ts, cur, items, env, i, acc) ==
@@ -238,17 +240,17 @@ TupleSlots(Ts, cur, items, env, i, acc) ==
            differs == inplace.err = "" /\ clean.err = "" /\ Strip(inplace.v) # Strip(clean.v)
            r == IF DevReused \in env.devs THEN inplace ELSE clean
            fired == IF DevReused \in env.devs /\ differs THEN {DevReused} ELSE {}
-       IN TupleSlots(Ts, cur, items, env, i + 1, [vs |-> Append(acc.vs, r.v), err |-> r.err, dv |-> IF r.err # "" THEN r.dv ELSE acc.dv \cup r.dv \cup fired])
+       IN TupleSlots(Ts, cur, items, env, i + 1, [vs |-> Append(acc.vs, r.v), err |-> r.err, dv |-> IF r.err # "" THEN r.dv ELSE acc.dv \cup r.dv \cup fired, fv |-> acc.fv \cup r.fv \cup fired])
 
 TupleLoad(Ts, cur, items, env) ==
   LET ld == TupleSlots(Ts, cur[2], items, Nested(env), 1, SlotAcc) IN
-  IF ld.err # "" THEN Err(ld.err, ld.dv)
+  IF ld.err # "" THEN Fv(Err(ld.err, ld.dv), ld.fv)
   ELSE IF Len(items) < Len(Ts) THEN
        (IF env.arch = "xml" /\ DevXmlOver \in env.devs THEN Err(Crash, {DevXmlOver})
-        ELSE IF env.mm = "throw" THEN Err(Mismatch, {})
-        ELSE Ok(<<"seq", ld.vs \o SubSeq(cur[2], Len(items) + 1, Len(Ts))>>, ld.dv))
-  ELSE IF Len(items) > Len(Ts) /\ env.mm = "throw" THEN Err(Mismatch, {})
-  ELSE Ok(<<"seq", ld.vs>>, ld.dv)
+        ELSE IF env.mm = "throw" THEN Fv(Err(Mismatch, {}), ld.fv)
+        ELSE Fv(Ok(<<"seq", ld.vs \o SubSeq(cur[2], Len(items) + 1, Len(Ts))>>, ld.dv), ld.fv))
+  ELSE IF Len(items) > Len(Ts) /\ env.mm = "throw" THEN Fv(Err(Mismatch, {}), ld.fv)
+  ELSE Fv(Ok(<<"seq", ld.vs>>, ld.dv), ld.fv)
 
 \* Detail::SerializeSetImpl: clear(), then `TValue value; Serialize(scope, value); insert(hint, value)`
 SetSlots(kind, Te, items, env, i, acc) ==
@@ -256,12 +258,12 @@ SetSlots(kind, Te, items, env, i, acc) ==
   ELSE LET r == MLoad(Te, Fresh(Te), items[i], env) IN
        SetSlots(kind, Te, items, env, i + 1,
                 [vs |-> IF r.err # "" THEN acc.vs ELSE InsertSorted(acc.vs, r.v, kind \in {"set", "uset"}, 1),
-                 err |-> r.err, dv |-> IF r.err # "" THEN r.dv ELSE acc.dv \cup r.dv])
+                 err |-> r.err, dv |-> IF r.err # "" THEN r.dv ELSE acc.dv \cup r.dv, fv |-> acc.fv \cup r.fv])
 
 SetLoad(kind, Te, cur, items, env) ==
   LET c0 == <<>>                                            \* cont.clear()
-      ld == SetSlots(kind, Te, items, Nested(env), 1, [vs |-> c0, err |-> "", dv |-> {}])
-  IN IF ld.err # "" THEN Err(ld.err, ld.dv) ELSE Ok(<<"set", ld.vs>>, ld.dv)
+      ld == SetSlots(kind, Te, items, Nested(env), 1, [vs |-> c0, err |-> "", dv |-> {}, fv |-> {}])
+  IN IF ld.err # "" THEN Fv(Err(ld.err, ld.dv), ld.fv) ELSE Fv(Ok(<<"set", ld.vs>>, ld.dv), ld.fv)
 
 \* Detail::SerializeMapImpl.  pairs = <<keyName, doc>>; acc = [vs (entries), err, dv]
 MapSlots(V, mode, pairs, env, i, acc) ==
@@ -273,12 +275,12 @@ MapSlots(V, mode, pairs, env, i, acc) ==
                    j == MapFind(es, k, 1)
                    r == MLoad(V, es[j][2], pairs[i][2], env)                                  \* Serialize(scope, key, it->second)
                IN MapSlots(V, mode, pairs, env, i + 1,
-                           [vs |-> IF r.err # "" THEN es ELSE [es EXCEPT ![j] = <<k, r.v>>], err |-> r.err, dv |-> IF r.err # "" THEN r.dv ELSE acc.dv \cup r.dv])
+                           [vs |-> IF r.err # "" THEN es ELSE [es EXCEPT ![j] = <<k, r.v>>], err |-> r.err, dv |-> IF r.err # "" THEN r.dv ELSE acc.dv \cup r.dv, fv |-> acc.fv \cup r.fv])
 
 MapLoad(V, mode, cur, pairs, env) ==
   LET c0 == IF mode = "clean" THEN <<>> ELSE cur[2]         \* if (mapLoadMode == Clean) cont.clear()
-      ld == MapSlots(V, mode, pairs, Nested(env), 1, [vs |-> c0, err |-> "", dv |-> {}])
-  IN IF ld.err # "" THEN Err(ld.err, ld.dv) ELSE Ok(<<"map", ld.vs>>, ld.dv)
+      ld == MapSlots(V, mode, pairs, Nested(env), 1, [vs |-> c0, err |-> "", dv |-> {}, fv |-> {}])
+  IN IF ld.err # "" THEN Fv(Err(ld.err, ld.dv), ld.fv) ELSE Fv(Ok(<<"map", ld.vs>>, ld.dv), ld.fv)
 
 \* Detail::SerializeMultiMapImpl: clear(); per item a value-initialised pair is loaded as {key, value} and emplaced
 MMSlots(V, items, env, i, acc) ==
@@ -288,11 +290,11 @@ MMSlots(V, items, env, i, acc) ==
        ELSE LET k == Member(it[2], "key", 1)
                 r == MLoad(V, Fresh(V), Member(it[2], "value", 1), env)
             IN MMSlots(V, items, env, i + 1,
-                       [vs |-> IF r.err # "" THEN acc.vs ELSE MMInsert(acc.vs, <<KeyIndex(k[2]), r.v>>, 1), err |-> r.err, dv |-> IF r.err # "" THEN r.dv ELSE acc.dv \cup r.dv])
+                       [vs |-> IF r.err # "" THEN acc.vs ELSE MMInsert(acc.vs, <<KeyIndex(k[2]), r.v>>, 1), err |-> r.err, dv |-> IF r.err # "" THEN r.dv ELSE acc.dv \cup r.dv, fv |-> acc.fv \cup r.fv])
 
 MMLoad(V, cur, items, env) ==
-  LET ld == MMSlots(V, items, Nested(env), 1, [vs |-> <<>>, err |-> "", dv |-> {}]) IN
-  IF ld.err # "" THEN Err(ld.err, ld.dv) ELSE Ok(<<"mmap", ld.vs>>, ld.dv)
+  LET ld == MMSlots(V, items, Nested(env), 1, [vs |-> <<>>, err |-> "", dv |-> {}, fv |-> {}]) IN
+  IF ld.err # "" THEN Fv(Err(ld.err, ld.dv), ld.fv) ELSE Fv(Ok(<<"mmap", ld.vs>>, ld.dv), ld.fv)
 
 \* class Rec { int16_t x; std::string s; std::unique_ptr<std::string> p; }: each member requested by key, loaded in place
 RecLoad(cur, pairs, env) ==
@@ -301,8 +303,9 @@ RecLoad(cur, pairs, env) ==
       s == MLoad(<<"str">>, cur[3], Member(pairs, "s", 1), e)
       p == MLoad(<<"uptr", <<"str">>>>, cur[4], Member(pairs, "p", 1), e)
       dv == x.dv \cup s.dv \cup p.dv
-  IN IF x.err # "" THEN Err(x.err, x.dv) ELSE IF s.err # "" THEN Err(s.err, s.dv) ELSE IF p.err # "" THEN Err(p.err, p.dv)
-     ELSE Ok(<<"rec", x.v, s.v, p.v>>, dv)
+      fv == x.fv \cup s.fv \cup p.fv
+  IN IF x.err # "" THEN Fv(Err(x.err, x.dv), fv) ELSE IF s.err # "" THEN Fv(Err(s.err, s.dv), fv) ELSE IF p.err # "" THEN Fv(Err(p.err, p.dv), fv)
+     ELSE Fv(Ok(<<"rec", x.v, s.v, p.v>>, dv), fv)
 
 \* mode is only meaningful for T = <<"map",..>> at the outermost level; nested maps load in Clean mode
 MLoadMode(T, mode, cur, d, env) ==
@@ -331,8 +334,8 @@ MLoad(T, cur, d, env) ==
        LET inner == IF cur[1] = "none" THEN Fresh(T[2]) ELSE cur[2]
            r == MLoad(T[2], inner, d, env)
        IN IF r.err # "" THEN r
-          ELSE IF r.ok THEN Ok(<<"some", r.v>>, r.dv)
-          ELSE NotLoaded(<<"none">>, r.dv)
+          ELSE IF r.ok THEN Fv(Ok(<<"some", r.v>>, r.dv), r.fv)
+          ELSE Fv(NotLoaded(<<"none">>, r.dv), r.fv)
   ELSE IF k \in {"seq", "fix", "tuple", "set", "mmap"} THEN
        IF d[1] = "null" THEN NullInto("arr", cur, env)
        ELSE IF d[1] # "arr" THEN Err(Mismatch, {})
